@@ -43,6 +43,8 @@ class Parenthesis(Token):
             if not stack or self.opens[self.name] != stack[-1].name:
                 raise ParenthesesError()
             token = stack.pop()
+            if bool(token.attr.get('brace')) != bool(self.attr.get('brace')):
+                raise ParenthesesError()  # E.g., `=((1}` or `={1))`.
             if not token.get_check_n(token):
                 raise ParenthesesError()
             n = self.attr['n_args'] = token.n_args
